@@ -63,6 +63,22 @@ reference tree; benign helper refactorings of arraylist.c, linkhash.c and json_t
 rules called a moved-but-sound guard an index violation (they now answer UNDECIDED when the guard does not dominate the
 increment in the CFG, and the automaton rule C15.R2 always runs and decides both exactness and index safety); the number rules
 answer UNDECIDED, not REFUTED, when the token buffer is handed to a function the model does not know.
+
+Met after the fourth seed round and the B3 refactorings, corrected the same way: a leak reported for `if (key != stackbuf)
+free(key)` (an allocator result never equals the address of a local or a global: ownership engine); a leak reported for
+`k = const ? key : strdup(key) ... if (!const) free(k)` (an edge that contradicts a condition dominating the acquisition cannot be
+taken by a run that acquired: ownership engine); string literals of an inlined function of another module read from the wrong
+module (private globals are qualified by the frame's module); `isspace()` made the number evaluation opaque after fix F23 (the
+C-locale `__ctype_b_loc` table is modelled); the first version of the dangling-field rule called the string node's `pdata`
+dangling although the union's discriminant retires it (members of a union: UNDECIDED) and followed a path that the dominating
+`len == 0` excludes (dominating equalities seed the path search); the first version of the serializer-data table refuted a copy
+that goes through `json_object_set_serializer` (the setter and `json_object_set_userdata` are followed; an invisible field is
+UNDECIDED, only a concrete wrong value is a refutation); the terminator obligation did not see a zero byte stored through an address
+computed in place (UNDECIDED, B2-c08); the constructor size rule refuted a size that comes back through a helper's out-parameter
+(untracked value: UNDECIDED, B3-c11); the copy = add callback agreement refuted a callback taken from a constant table (resolved
+through the table when the index is a function of the flag, otherwise UNDECIDED, B3-c13); C15.R3 crashed on a guard whose comparison
+reaches its branch through a materialised boolean (followed). The first oracle of C16.X8n looked wrong on the unchanged tree
+(`-0` then `I` gives `continue`) and was replayed against the library before being touched: the library was wrong (F25).
 """)
 
 out.append("### 7.3 Rules per property as built (generated from the evidence files of the current tree)\n")
@@ -173,9 +189,18 @@ What this changed, by engine:
 * instance floors (the vacuity guard) are 60 % of the count confirmed on the reference tree, and are not applied when a rule is run
   as a *shared* rule under another property (`chk.shared()`), because a refactoring legitimately merges call sites.
 
-What remains after these corrections (and is accepted): a refactoring that removes an anchor a rule is *about* - B2-c08 and B2-c13
-fold the function C13.R6 is anchored in - ends as analysis-broken (exit 2) for that one check, never as a violation; exit 2 asks
-for the anchor table to be re-confirmed by a person, which is the documented meaning of that code.
+A third suite, **B3-c04 .. B3-c19** (ten refactorings), was commissioned after the fourth seed round and aimed at exactly the
+functions the newest rules read (the text -> integer helpers, the token -> member-name code of pointer and patch, the print buffer,
+the hash table's insert / lookup / delete / resize, the string set operation, the deep-copy routines, every function that releases
+a field or a global, the number state of the tokener, the member-name ownership of the tokener). What it found is listed with the
+false alarms of 7.2. `tools/par_regress.py` runs the whole regression - unchanged tree, the 50 refactorings x 20 checks, the 80
+seeded changes, the ~260 developer mutants - in parallel scratch worktrees with private analysis caches (about 40 minutes on 16
+cores), never touching /repo or /verif/evidence.
+
+What remains after these corrections (and is accepted): a refactoring that removes a function a rule is anchored in by name ends
+as analysis-broken (exit 2) for that one check, never as a violation; exit 2 asks for the anchor table to be re-confirmed by a
+person, which is the documented meaning of that code. On the stored suites no check ends that way any more (C13.R6, which did
+on B2-c08 and B2-c13, was restated as an evaluation rule that has no named anchor).
 
 ### 7.6 Honest limits
 
